@@ -187,9 +187,9 @@ __CPROVER_ensures(S_RES(origin) != S_RES(h3) ==> __CPROVER_return_value == S_ERR
 /* gridDiskDistancesUnsafe: ring bookkeeping without arithmetic overflow for every k up to 30000 (the output index passes
  * 2^31 at k = 26755); the write BOUND (index < maxGridDiskSize(k)) is a quadratic fact that is not decided here */
 H3Error gridDiskDistancesUnsafe_contract(H3Index origin, int k, H3Index *out, int *distances)
-__CPROVER_requires(k <= 30000 && h3v_n >= 1)
-__CPROVER_requires(__CPROVER_is_fresh(out, sizeof(H3Index) * h3v_n) && (distances == NULL || __CPROVER_is_fresh(distances, sizeof(int) * h3v_n)))
-__CPROVER_assigns(__CPROVER_object_whole(out); distances != NULL : __CPROVER_object_whole(distances))
+__CPROVER_requires(k <= 30000 && h3v_n >= 1 && h3v_n <= (((int64_t)1) << 36))
+__CPROVER_requires(__CPROVER_is_fresh(out, sizeof(H3Index) * h3v_n) && __CPROVER_is_fresh(distances, sizeof(int) * h3v_n))   /* with a distances array (the NULL case only skips the stores) */
+__CPROVER_assigns(__CPROVER_object_whole(out), __CPROVER_object_whole(distances))
 __CPROVER_ensures(__CPROVER_return_value <= 15)
 __CPROVER_ensures(k < 0 ==> __CPROVER_return_value == S_ERR_DOMAIN);
 #endif
